@@ -70,7 +70,8 @@ def random_layout(rng, comments=True):
 
 
 STRING_POOL = [" padded ", "tab\tinside", "a#b", "\u00fcn\u00efc\u00f6de \u4e2d\u6587", "with 'apos'", 'with "dq"', "multi\nline", "  ", "semi;colon", "100% sure",
-               "back\\slash mid", "UPPER lower", "trailing space ", " leading", "\U0001F600 astral", "a/b/c.shp", "x=1 y=2", "END", "end of story", "#notcomment"]
+               "back\\slash mid", "UPPER lower", "trailing space ", " leading", "\U0001F600 astral", "a/b/c.shp", "x=1 y=2", "END", "end of story", "#notcomment",
+               'Say \\"hello\\"', 'a \\"q\\" b', "it\\'s", 'ends with quote\\"', "(not an expression", "50% [approx]"]
 
 
 def vary_strings(b, rng, prob=0.3):
@@ -84,7 +85,39 @@ def vary_strings(b, rng, prob=0.3):
             it.intended = w
 
 
-def gen_documents(rng, n, max_depth=3, roots=None, vary=True):
+def add_contract_cases(doc, rng):
+    """inject the contract's special cases into a generated block"""
+    usable = sweep.usable_slots()
+    pool = usable.get(doc.type, [])
+    simple = [it for it in doc.items if isinstance(it, docs.Item) and it.kind in ("attr", "pattern", "projection", "kv") and not it.repeated]
+    if simple and rng.random() < 0.6:
+        it = rng.choice(simple)
+        alts = [a for a in pool if a.key == it.key and a.kind == it.kind and (a.shape != it.shape or it.kind in ("pattern", "kv"))]
+        if alts:
+            dup = copy.copy(rng.choice(alts))
+            if dup.kind == "pattern":                              # a second PATTERN with other pairs: the last one wins, flat
+                dup.tokens = [docs.kw("pattern"), docs.numtok(9), docs.numtok(8), docs.kw("END", False)]
+                dup.intended = [[9, 8]]
+            doc.items.append(dup)                                  # duplicate keyword / block: last value wins
+    if doc.type == "feature" and rng.random() < 0.7:
+        pts = [it for it in pool if it.kind == "points"]
+        if pts:
+            doc.items.append(copy.copy(pts[0]))
+            doc.items.append(copy.copy(pts[0]))                    # POINTS repeated: one level deeper
+    if doc.type in ("map", "layer", "class", "web") and rng.random() < 0.4:
+        toks = [docs.kw("metadata"), docs.T("qstr", "Dup"), docs.T("qstr", "1"), docs.T("qstr", "dup"), docs.T("qstr", "2"),
+                docs.T("qstr", "w_other"), docs.T("qstr", "v"), docs.kw("END", False)]
+        doc.items.append(docs.Item("metadata", toks, ("kv", [("dup", "2"), ("w_other", "v")]), "kv-dup", kind="kv"))
+    if doc.type == "map" and rng.random() < 0.4:
+        for k, v in (("MS_ERRORFILE", "stderr"), ("PROJ_LIB", "/p"), ("ms_errorfile", "last")):
+            doc.items.append(docs.Item("config", [docs.kw("config"), docs.T("qstr", k), docs.T("qstr", v)], ("config", [(k.lower(), v)]), "config", kind="config"))
+    for it in doc.items:
+        if isinstance(it, docs.Block):
+            add_contract_cases(it, rng)
+
+
+
+def gen_documents(rng, n, max_depth=3, roots=None, vary=True, contract=False):
     usable = sweep.usable_slots()
     child_ok = sweep.usable_children()
     roots = roots or ["map", "map", "layer", "class", "style", "label", "web", "legend", "scalebar", "symbol", "outputformat"]
@@ -99,5 +132,8 @@ def gen_documents(rng, n, max_depth=3, roots=None, vary=True):
         if vary:
             for b in (d if isinstance(d, list) else [d]):
                 vary_strings(b, rng)
+        if contract:
+            for b in (d if isinstance(d, list) else [d]):
+                add_contract_cases(b, rng)
         out.append(d)
     return out
